@@ -329,7 +329,11 @@ def rand_op(rng):
     if c == 14:
         return rng.choice([["eq", a, b], ["ne", a, b]])
     if c == 15:
-        return ["eqd", a, rand_pairs(rng, rng.randrange(0, 4))]
+        pairs = rand_pairs(rng, rng.randrange(0, 4))
+        if pairs and rng.random() < 0.5:  # a second spelling of a name already in the mapping, same or other value
+            k, v = rng.choice(pairs)
+            pairs.append([rng.choice([k.upper(), k.lower(), k.title()]), v if rng.random() < 0.6 else rand_val(rng)])
+        return ["eqd", a, pairs]
     if c == 16:
         return ["pop", r, k]
     if c == 17:
@@ -358,13 +362,25 @@ def generate(ctx: Ctx) -> List[Case]:
     for _ in range(n_random):
         n = ctx.rng.randrange(1, 40 if ctx.thorough else 25)
         ops = [["new", 0, ctx.rng.choice(["dict", "kwargs", "mixed", "lowerstr", "multidict"]), rand_pairs(ctx.rng, ctx.rng.randrange(0, 6))]]
-        ops += [rand_op(ctx.rng) for _ in range(n)]
+        for _ in range(n):
+            op = rand_op(ctx.rng)
+            ops.append(op)
+            if op[0] == "replci":  # write through both variables right after the rebinding
+                ops.append(["set", op[2], ctx.rng.choice(KEYS), rand_val(ctx.rng)])
+                ops.append(["set", op[1], ctx.rng.choice(KEYS), rand_val(ctx.rng)])
         cases.append(run_recipe(ctx, {"ops": ops}, f"r{i}"))
         i += 1
     return cases
 
 
 CORPUS = [
+    # == / != against a plain mapping whose keys differ only by case (equal and unequal values)
+    {"ops": [["new", 0, "dict", [["Key", 1]]], ["eqd", 0, [["Key", 1], ["KEY", 1]]], ["eqd", 0, [["key", 1], ["KEY", 2]]], ["eqd", 0, [["KEY", 2], ["key", 1]]]]},
+    {"ops": [["new", 0, "dict", [["Key", 1], ["b", 2]]], ["eqd", 0, [["KEY", 1], ["key", 1], ["B", 2]]], ["eqd", 0, [["KEY", 1], ["B", 2], ["b", 2]]]]},
+    # replace(other) followed by every kind of mutation through either variable, observed through both
+    {"ops": [["new", 0, "dict", [["a", 1]]], ["new", 1, "dict", [["b", 2]]], ["replci", 0, 1], ["set", 1, "New", 3], ["set", 0, "B", 4], ["del", 1, "NEW"], ["pop", 0, "b"], ["setdefault", 1, "c", 5], ["update", 0, [["C", 6]]], ["clear", 1]]},
+    {"ops": [["new", 0, "dict", [["a", 1]]], ["copy", 1, 0], ["replci", 0, 1], ["set", 1, "kEy", 9], ["del", 0, "key"], ["set", 0, "A", 2]]},
+    {"ops": [["new", 0, "dict", [["a", 1]]], ["new", 1, "ci", 0], ["replci", 1, 0], ["set", 0, "x", 1], ["set", 1, "X", 2], ["dell", 0, "x"]]},
     {"ops": [["new", 0, "dict", [["Key", None]]]]},                                  # a stored None is present (in / len / iteration)
     {"ops": [["new", 0, "dict", [["a", 1]]], ["new", 1, "dict", [["b", 2]]], ["replci", 0, 1], ["set", 1, "New", 3], ["del", 0, "b"], ["set", 0, "B", 4]]},  # sharing after replace(other)
     {"ops": [["new", 0, "dict", [["a", 1]]], ["new", 1, "dict", [["b", 2]]], ["replci", 0, 1], ["repl", 1, [["c", 5]]], ["set", 0, "x", 1]]},  # sharing ends when the other is rebound
